@@ -30,6 +30,12 @@ def writers(ty):
          ('in-procedure', ['PROCEDURE w', '  c <- %s' % o, 'ENDPROCEDURE', ''], ['CALL w']),
          ]
     if ty == 'INTEGER':
+        # FOR headers of every shape: non-empty, empty in either direction, single iteration, start equal to the constant
+        for nm, hdr in [('for-empty', 'FOR c <- 10 TO 1'), ('for-empty-negstep', 'FOR c <- 1 TO 10 STEP -1'), ('for-single', 'FOR c <- 7 TO 7'),
+                        ('for-same-value', 'FOR c <- %s TO %s' % (OTHER[ty], OTHER[ty])), ('for-step', 'FOR c <- 1 TO 9 STEP 4'), ('for-down', 'FOR c <- 3 TO 1 STEP -1'),
+                        ('for-empty-var', 'FOR c <- hi TO lo')]:
+            W.append((nm, ['DECLARE lo : INTEGER', 'DECLARE hi : INTEGER', 'lo <- 1', 'hi <- 4'], [hdr, '  OUTPUT "body"', 'NEXT c', '']))
+            W.append((nm + '-in-proc', ['PROCEDURE w', '  ' + hdr.replace('hi', '4').replace('lo', '1'), '    OUTPUT "body"', '  NEXT c', 'ENDPROCEDURE', ''], ['CALL w']))
         W += [('for', [], ['FOR c <- 1 TO 3', '  OUTPUT "body"', 'NEXT c', '']),
               ('for-in-proc', ['PROCEDURE w', '  FOR c <- 1 TO 2', '    OUTPUT "body"', '  NEXT c', 'ENDPROCEDURE', ''], ['CALL w'])]
     if ty == 'STRING':
